@@ -3,6 +3,7 @@
   Property theorems only; helper lemmas are in Lemmas/Pipeline.lean.
 -/
 import RbModel.Lemmas.Pipeline
+import RbModel.Lemmas.GposDevice
 
 namespace RbModel.Pipeline
 open RbModel.Gen.Pipeline
@@ -156,3 +157,104 @@ theorem C16_v_origin (f : Font) (g : Nat) :
 example : vOrigin ⟨[], 1000, none, none, 800, -200, none, some (fun _ => some (-301, 800)), fun _ => 0⟩ 1 = 749 := by decide
 
 end RbModel.Pipeline
+
+/-! ## axis discipline of GPOS value records (SinglePos / PairPos), device and variation deltas included -/
+namespace RbModel.Gpos
+
+/-- C16_axis for value records: whatever the record holds — all eight value-format bits, any device / variation
+    deltas, any ppem / variation state of the face — applying it in a horizontal run leaves `y_advance` untouched and
+    applying it in a vertical run leaves `x_advance` untouched.  (`YAdvance` / `YAdvDevice` are vertical-layout
+    quantities, `XAdvance` / `XAdvDevice` horizontal ones.) -/
+theorem C16_axis_value_record (v : ValueRecordD) (useX useY : Bool) (d : Dir) (q : Pos) :
+    (d.isHorizontal = true → (valueApplyToPosD v useX useY d q).1.ya = q.ya) ∧
+    (d.isHorizontal = false → (valueApplyToPosD v useX useY d q).1.xa = q.xa) := by
+  rw [valueApplyToPosD_exact]
+  constructor <;> intro h <;> simp [h]
+
+/-- non-vacuity: a record with every field and every device active does change the glyph, on the run's own axis only -/
+example :
+    let v : ValueRecordD := {
+      xPlacement := 1, yPlacement := 2, xAdvance := 3, yAdvance := 4,
+      xPlaDevice := some 5, yPlaDevice := some 6, xAdvDevice := some 7, yAdvDevice := some 8 }
+    (valueApplyToPosD v true true .rtl { xa := 100, ya := 0 }).1 = { xa := 110, ya := 0, xo := 6, yo := 8 } ∧
+    (valueApplyToPosD v true true .ttb { xa := 0, ya := -100 }).1 = { xa := 0, ya := -112, xo := 6, yo := 8 } := by
+  decide
+
+/-- the same for the buffer: a SinglePos / PairPos application (`ValueRecord::apply` on one glyph, `bail` of PairPos on
+    two) keeps the off-axis advance of EVERY glyph of the buffer -/
+theorem C16_axis_value_apply (v : ValueRecordD) (useX useY : Bool) (d : Dir) (p q : Array Pos) (idx : Nat) (w : Bool)
+    (h : valueApplyD v useX useY d p idx = .ok (q, w)) (k : Nat) :
+    (d.isHorizontal = true → (q[k]?.map (·.ya)) = (p[k]?.map (·.ya))) ∧
+    (d.isHorizontal = false → (q[k]?.map (·.xa)) = (p[k]?.map (·.xa))) := by
+  unfold valueApplyD at h
+  simp only [bind, Except.bind] at h
+  split at h
+  · cases h
+  · rename_i q0 hq0
+    simp only [Except.ok.injEq, Prod.mk.injEq] at h
+    obtain ⟨rfl, _⟩ := h
+    have hget : p[idx]? = some q0 := by
+      unfold get at hq0
+      split at hq0
+      · rename_i x hx; simp only [Except.ok.injEq] at hq0; rw [hx, hq0]
+      · cases hq0
+    have hax := C16_axis_value_record v useX useY d q0
+    by_cases hk : k = idx
+    · subst hk
+      have hlt : k < p.size := by
+        by_cases hlt : k < p.size
+        · exact hlt
+        · rw [Array.getElem?_eq_none (by omega)] at hget; cases hget
+      unfold put
+      rw [Array.getElem?_setIfInBounds_self_of_lt hlt, hget]
+      constructor <;> intro hd
+      · simp [hax.1 hd]
+      · simp [hax.2 hd]
+    · unfold put
+      rw [Array.getElem?_setIfInBounds_ne (Ne.symm hk)]
+      exact ⟨fun _ => rfl, fun _ => rfl⟩
+
+theorem C16_axis_pair_apply (v1 v2 : ValueRecordD) (useX useY : Bool) (d : Dir) (p q : Array Pos) (i j : Nat) (f1 f2 : Bool)
+    (h : pairApplyD v1 v2 useX useY d p i j = .ok (q, f1, f2)) (k : Nat) :
+    (d.isHorizontal = true → (q[k]?.map (·.ya)) = (p[k]?.map (·.ya))) ∧
+    (d.isHorizontal = false → (q[k]?.map (·.xa)) = (p[k]?.map (·.xa))) := by
+  unfold pairApplyD at h
+  simp only [bind, Except.bind] at h
+  have one : ∀ (v : ValueRecordD) (a b : Array Pos) (t : Nat) (g : Bool), valueApplyD v useX useY d a t = .ok (b, g) →
+      (d.isHorizontal = true → (b[k]?.map (·.ya)) = (a[k]?.map (·.ya))) ∧
+      (d.isHorizontal = false → (b[k]?.map (·.xa)) = (a[k]?.map (·.xa))) :=
+    fun v a b t g hv => C16_axis_value_apply v useX useY d a b t g hv k
+  split at h
+  · split at h
+    · cases h
+    · rename_i r1 hr1
+      obtain ⟨p1, g1⟩ := r1
+      have s1 := one v1 p p1 i g1 hr1
+      split at h
+      · split at h
+        · cases h
+        · rename_i r2 hr2
+          obtain ⟨p2, g2⟩ := r2
+          simp only [Except.ok.injEq, Prod.mk.injEq] at h
+          obtain ⟨rfl, _, _⟩ := h
+          have s2 := one v2 p1 p2 j g2 hr2
+          exact ⟨fun hd => (s2.1 hd).trans (s1.1 hd), fun hd => (s2.2 hd).trans (s1.2 hd)⟩
+      · simp only [Except.ok.injEq, Prod.mk.injEq] at h
+        obtain ⟨rfl, _, _⟩ := h
+        exact s1
+  · split at h
+    · split at h
+      · cases h
+      · rename_i r2 hr2
+        obtain ⟨p2, g2⟩ := r2
+        simp only [Except.ok.injEq, Prod.mk.injEq] at h
+        obtain ⟨rfl, _, _⟩ := h
+        exact one v2 p p2 j g2 hr2
+    · simp only [Except.ok.injEq, Prod.mk.injEq] at h
+      obtain ⟨rfl, _, _⟩ := h
+      exact ⟨fun _ => rfl, fun _ => rfl⟩
+
+example : ∃ q f1 f2, pairApplyD { yAdvDevice := some 3 } { xAdvance := 2 } true true .ltr #[{ xa := 10 }, { xa := 20 }] 0 1 = .ok (q, f1, f2) :=
+  ⟨_, _, _, rfl⟩
+
+end RbModel.Gpos
